@@ -132,7 +132,7 @@ FieldLaws(f) ==
     [] f = "SDRZ" -> [eq |-> {"mass-flux", "rayleigh-line", "energy", "sound", "ahead"}, ineq |-> {"lambda<=1", "lambda>=0"}]
     [] f = "RadShock" -> [eq |-> {"mass-flux", "momentum-flux", "energy-flux", "upstream.rho", "upstream.T", "upstream.mach", "upstream.equilibrium",
                                   "downstream.equilibrium"} \cup {"steady." \o n : n \in {"temperature", "temperature_mat", "temperature_rad", "density", "velocity",
-                                  "pressure", "specific_internal_energy", "rade", "sound_speed"}}, ineq |-> {}]
+                                  "pressure", "specific_internal_energy", "rade", "sound_speed", "VEF"}}, ineq |-> {}]
     [] f = "SuOlson"  -> [eq |-> {"rad", "mat", "marshak"}, ineq |-> {"v<=u", "u<=1", "v>=0", "decay", "mono-x", "mono-t"}]
     [] OTHER -> [eq |-> {}, ineq |-> {}]
 
